@@ -34,6 +34,9 @@ pub fn payload(kind: usize, residue: usize, salt: usize) -> (Vec<u8>, Vec<u8>) {
                 Chunk::C { class: 2, props: (1, 1, 1), prog: vec![Sym::M(2, 5), Sym::L(salt as u8), Sym::S] },
                 Chunk::C { class: 0, props: (0, 0, 0), prog: vec![Sym::R(0, 2), Sym::L(1)] },
                 Chunk::U { reset: false, data: vec![9, 8, 7] },
+                // a compressed chunk that resets the dictionary (and brings new properties) in the middle of the block
+                Chunk::C { class: 3, props: (2, 1, 0), prog: vec![Sym::L(salt as u8 ^ 0x55), Sym::L(0x10), Sym::L(0x33), Sym::M(2, 3), Sym::S] },
+                Chunk::C { class: 0, props: (2, 1, 0), prog: vec![Sym::R(0, 2), Sym::L(4)] },
             ],
         };
         let w = lzma2::write(&cs);
